@@ -4,6 +4,7 @@
 package main
 
 import (
+	"context"
 	"encoding/json"
 	"fmt"
 	"sort"
@@ -336,4 +337,140 @@ func replay(raw json.RawMessage, res *vh.Result) error {
 	return nil
 }
 
-func main() { vh.Main(map[string]vh.Mode{"replay": replay}) }
+// burst: the reservation that enforces the channel limit is check-and-reserve in ONE critical section (Limits.tla
+// CSub is one action). The probe issues subscribe commands for different channels concurrently on one connection
+// (as concurrent emulation/HTTP requests of one session do) and counts what the connection holds afterwards.
+func burst(raw json.RawMessage, res *vh.Result) error {
+	var cfg struct {
+		Rounds int `json:"rounds"`
+		L      int `json:"l"`
+	}
+	_ = json.Unmarshal(raw, &cfg)
+	env, err := cl.NewEnv(centrifuge.Config{LogLevel: centrifuge.LogLevelNone, ClientChannelLimit: cfg.L})
+	if err != nil {
+		return err
+	}
+	if err := env.Run(); err != nil {
+		return err
+	}
+	defer env.Close()
+	const par = 16
+	for r := 0; r < cfg.Rounds; r++ {
+		conn, err := env.NewConn("u", centrifuge.ProtocolTypeJSON)
+		if err != nil {
+			return err
+		}
+		conn.Connect()
+		var start atomic.Bool // spin start: all goroutines enter HandleCommand within the same microsecond
+		var wg sync.WaitGroup
+		ids := make([]uint32, par)
+		for i := 0; i < par; i++ {
+			ids[i] = conn.NextID()
+			wg.Add(1)
+			go func(i int) {
+				defer wg.Done()
+				for !start.Load() {
+				}
+				conn.Do(&protocol.Command{Id: ids[i], Subscribe: &protocol.SubscribeRequest{Channel: fmt.Sprintf("b%d_%d", r, i)}})
+			}(i)
+		}
+		time.Sleep(200 * time.Microsecond)
+		start.Store(true)
+		wg.Wait()
+		conn.Barrier(2 * time.Second)
+		held := len(conn.Client.Channels())
+		okReplies, limitReplies := 0, 0
+		for _, rep := range conn.Frames() {
+			if rep.Subscribe != nil {
+				okReplies++
+			}
+			if rep.Error != nil && rep.Error.Code == centrifuge.ErrorLimitExceeded.Code {
+				limitReplies++
+			}
+		}
+		if held > cfg.L || okReplies > cfg.L {
+			res.Violate("C37", "limit-not-enforced:concurrent-subscribes", fmt.Sprintf("%d concurrent client subscribes on one connection: it holds %d subscriptions (%d successful replies, %d limit-exceeded), ClientChannelLimit is %d", par, held, okReplies, limitReplies, cfg.L), map[string]any{"round": r, "held": held})
+		} else if okReplies+limitReplies != par {
+			res.Drift("C37", fmt.Sprintf("burst: %d ok + %d limit replies for %d subscribes", okReplies, limitReplies, par), nil)
+		}
+		res.Done(1, 1)
+		conn.Client.Disconnect()
+	}
+	res.Distinct("burst-rounds")
+	res.Distinct(fmt.Sprintf("burst-%d", cfg.Rounds))
+	return nil
+}
+
+// timermode: the queue limit must also hold for connections whose writer runs in timer mode (ConnectReply
+// WriteDelay + WriteWithTimer): pushes enqueued while a flush is already scheduled accumulate until the timer fires.
+func timermode(raw json.RawMessage, res *vh.Result) error {
+	var cfg struct {
+		QMax int `json:"qmax"`
+		N    int `json:"n"`
+	}
+	_ = json.Unmarshal(raw, &cfg)
+	unit, err := measureUnit()
+	if err != nil {
+		return err
+	}
+	for i := 0; i < cfg.N; i++ {
+		for _, over := range []bool{false, true} {
+			env, err := cl.NewEnv(centrifuge.Config{LogLevel: centrifuge.LogLevelNone, ClientQueueMaxSize: cfg.QMax * unit})
+			if err != nil {
+				return err
+			}
+			env.OnConnecting = func(_ context.Context, _ centrifuge.ConnectEvent) (centrifuge.ConnectReply, error) {
+				return centrifuge.ConnectReply{WriteDelay: 400 * time.Millisecond, WriteWithTimer: true}, nil
+			}
+			if err := env.Run(); err != nil {
+				return err
+			}
+			conn, _ := env.NewConn("u", centrifuge.ProtocolTypeJSON)
+			conn.Connect()
+			ch := "000000_a"
+			if err := conn.Client.Subscribe(ch); err != nil {
+				env.Close()
+				return err
+			}
+			// wait until the subscribe push was flushed by the timer: the queue is empty, no flush is scheduled
+			conn.T.WaitFor(3*time.Second, func(rs []*protocol.Reply, _ bool) bool {
+				for _, r := range rs {
+					if r.Push != nil && r.Push.Subscribe != nil {
+						return true
+					}
+				}
+				return false
+			})
+			time.Sleep(20 * time.Millisecond)
+			n := cfg.QMax
+			if over {
+				n = cfg.QMax + 1
+			}
+			t0 := time.Now()
+			for k := 0; k < n; k++ {
+				_, _ = env.Node.Publish(ch, []byte(payload))
+			}
+			burstTook := time.Since(t0)
+			closed := conn.T.WaitFor(250*time.Millisecond, func(_ []*protocol.Reply, c bool) bool { return c })
+			if !closed {
+				closed = env.Node.Hub().NumClients() == 0
+			}
+			_, d := conn.T.Closed()
+			if burstTook > 300*time.Millisecond {
+				res.Count("timermode-discarded-slow-machine", 1) // pushes did not fit into one flush interval: not judged
+			} else if over && !closed {
+				res.Violate("C37", "queue-limit-not-enforced:timer-mode", fmt.Sprintf("timer-mode writer: %d pushes of %d bytes queued within one flush interval exceed ClientQueueMaxSize %d but the connection stays open", n, unit, cfg.QMax*unit), map[string]any{"pushes": n, "unit": unit})
+			} else if over && closed && d.Code != 0 && d.Code != centrifuge.DisconnectSlow.Code {
+				res.Violate("C37", "queue-limit-wrong-disconnect:timer-mode", fmt.Sprintf("disconnect code %d", d.Code), nil)
+			} else if !over && closed {
+				res.Violate("C37", "queue-limit-too-early:timer-mode", fmt.Sprintf("timer-mode writer: connection closed with %d pushes (%d bytes) queued, limit %d", n, n*unit, cfg.QMax*unit), nil)
+			}
+			res.Distinct(fmt.Sprintf("timer-%v", over))
+			res.Done(1, 1)
+			env.Close()
+		}
+	}
+	return nil
+}
+
+func main() { vh.Main(map[string]vh.Mode{"replay": replay, "burst": burst, "timermode": timermode}) }
